@@ -3,6 +3,7 @@ mod par;
 mod report;
 mod tree;
 mod valmc;
+mod sysmc;
 mod entrymc;
 mod replmc;
 mod scopemc;
@@ -19,6 +20,9 @@ mod subject;
 
 fn main() {
     let args: Vec<String> = std::env::args().collect();
+    if args.len() >= 2 && args[1] == "--fs-subject" {
+        sysmc::fs_subject_main(args[2..].to_vec());
+    }
     if args.len() >= 2 && args[1] == "--cldb-entry" {
         entrymc::cldb_entry_main(args[2..].to_vec());
     }
@@ -69,6 +73,7 @@ fn main() {
         "C16" => replmc::c16(thorough, replay),
         "C17" => progmc::c17(thorough, replay),
         "C18" => entrymc::c18(thorough, replay),
+        "C19" => sysmc::c19(thorough, replay),
         "C20" => valmc::c20(thorough, replay),
         _ => {
             eprintln!("no engine for {}", id);
